@@ -6,7 +6,7 @@
    (total = window sum, ring content = window content, slots outside the ring clean);
    a resize that does not unwrap the ring must violate.
 2. TLC exports every history of 4 (thorough: 5) events and simulated 14-event ones; the
-   harness replays them into the real counter and into Limiter.Account (injected clock,
+   harness replays a tenth (thorough: half) of the exhaustive set and all simulated ones into the real counter and into Limiter.Account (injected clock,
    several clock bases including one that wraps int64, events repeated to force the real
    8 -> 16 -> 32 resizes), at 100 ms per step and at 300 us per step (events inside one
    millisecond with the window edge between them), plus seeded random long histories
@@ -60,8 +60,9 @@ def run(ctx):
     sim = [{"w": 4, "ev": h} for h in rs.printed_json("HIST")]
     sim = sim[:ctx.pick(300, 3000)]
     hs += sim
-    if ctx.quick:
-        hs = hs[:n_ex:10] + sim  # a tenth of the exhaustive set (all of it in thorough)
+    # sized to the measured validation throughput (~1.5-3k trace lines/s): a tenth of the
+    # exhaustive set in quick, half of it in thorough
+    hs = hs[:n_ex:ctx.pick(10, 2)] + sim
     ctx.log("histories: %d exhaustive (len %d), %d simulated (len 14); replaying %d"
             % (n_ex, ctx.pick(4, 5), len(sim), len(hs)))
     with open(ctx.path("hist.json"), "w") as fh:
@@ -85,7 +86,7 @@ def run(ctx):
 
     ctx.harness("./c34", "TestTrace", env={"VERIF_RANDOM": ctx.pick(40, 600),
                                            "VERIF_QUOTA_MS": ctx.pick(400, 4000),
-                                           "VERIF_QUOTA_ROUNDS": ctx.pick(40, 2000)}, timeout=1200)
+                                           "VERIF_QUOTA_ROUNDS": ctx.pick(40, 400)}, timeout=1200)
     st = json.load(open(ctx.path("stats.json")))
     ctx.log("harness: %d counter runs (%d adds, max capacity %d), %d limiter runs (%d closed), %d quota calls "
             "(%d blocked), %d key pairs" % (st["counter_runs"], st["adds"], st["max_ring_capacity"], st["limiter_runs"],
@@ -95,7 +96,20 @@ def run(ctx):
             or st["limiter_runs_closed"] == st["limiter_runs"]:
         raise vlib.ToolError("harness did not reach resizes / refusals: %s" % st)
     recs = vlib.read_ndjson(ctx.path("trace.ndjson"))
-    rejected, matched, tstates = ctx.validate_runs("RateLimit_Trace", recs, timeout=1500)
+    # one TLC pass per slice of at most ~80k trace lines (cut at run boundaries)
+    rejected, matched, tstates = [], 0, 0
+    chunk, n_chunks = [], 0
+    bounds = [i for i, r in enumerate(recs) if r.get("ev") == "reset"] + [len(recs)]
+    start = 0
+    for k in range(1, len(bounds)):
+        if bounds[k] - start >= 80000 or k == len(bounds) - 1:
+            rj, m, ts = ctx.validate_runs("RateLimit_Trace", recs[start:bounds[k]], timeout=900)
+            rejected += rj
+            matched += m
+            tstates += ts
+            n_chunks += 1
+            start = bounds[k]
+    ctx.log("trace validated in %d TLC pass(es): %d lines" % (n_chunks, matched))
     for rj in rejected:
         bad = rj["bad"] or {}
         ev = bad.get("ev")
